@@ -2,8 +2,9 @@ package rules
 
 import (
 	"fmt"
-	"os"
+	"go/constant"
 	"go/types"
+	"os"
 	"strings"
 
 	"golang.org/x/tools/go/ssa"
@@ -123,6 +124,7 @@ func ruleTreePrinters(c *core.Ctx, rule string) {
 		return
 	}
 	n := 0
+	firstChildOK := ruleFirstChild(c, rule)
 	for _, fn := range selfRecursiveQuiet(c.P) {
 		if core.FnPkgPath(fn) != balancePkg || len(fn.Params) == 0 || fn.Signature.Results().Len() != 1 || !isErrorType(fn.Signature.Results().At(0).Type()) {
 			continue
@@ -210,6 +212,16 @@ func ruleTreePrinters(c *core.Ctx, rule string) {
 				return x.Fresh(s, "recerr"), true
 			case isMethod(callee, core.LibPath, "TreeNode", "Keys"):
 				return absint.Sym{Name: "keys"}, true
+			case firstChildOK && isMethod(callee, core.LibPath, "TreeNode", "FirstChild") && len(args) == 1:
+				// contract checked separately below: nil or one of the node's own children
+				if p, ok := args[0].(absint.Ptr); ok {
+					kids := x.Load(s, absint.Ptr{Loc: p.Loc + "·Children"}, nil)
+					return absint.NewTerm("lookup", kids, absint.NewTerm("index", absint.Sym{Name: "keys"}, absint.Const{V: constant.MakeInt64(0)})), true
+				}
+				if t, ok := args[0].(*absint.Term); ok && t.Op == "lookup" {
+					kids := x.Load(s, absint.Ptr{Loc: "L:" + t.Key() + "·Children"}, nil)
+					return absint.NewTerm("lookup", kids, absint.NewTerm("index", absint.Sym{Name: "keys"}, absint.Const{V: constant.MakeInt64(0)})), true
+				}
 			case callee != nil && core.FnPkgPath(callee) == balancePkg && callee != fn && callee.Signature.Results().Len() == 1 && isSliceType(callee.Signature.Results().At(0).Type()) && len(callee.Params) == 1:
 				// a helper that computes the joined path of a chain (getJump): opaque list
 				return x.Fresh(s, "jump"), true
@@ -250,9 +262,9 @@ func ruleTreePrinters(c *core.Ctx, rule string) {
 			if d["rows"] == "" && d["rec"] == "" {
 				return
 			}
-			kids0, kids1 := d["kids0"], d["kids1"] // outcomes of ord(0,len) and ord(1,len)
-			leaf := kids0 != "" && !strings.Contains(kids0, "<")        // 0 >= len  ⇒ no children
-			single := kids1 == "="                                      // len == 1
+			kids0, kids1 := d["kids0"], d["kids1"]               // outcomes of ord(0,len) and ord(1,len)
+			leaf := kids0 != "" && !strings.Contains(kids0, "<") // 0 >= len  ⇒ no children
+			single := kids1 == "="                               // len == 1
 			grandLeaf := d["grand0"] != "" && !strings.Contains(d["grand0"], "<")
 			caseKey := fmt.Sprintf("children=%s/%s grandchildren=%s mode=%s jump=%s → rows=%s rec=%s", kids0, kids1, d["grand0"], d["mode"], d["jump"], d["rows"], d["rec"])
 			seenCases[caseKey] = true
@@ -434,6 +446,43 @@ func ruleGrandTotal(c *core.Ctx, rule string) {
 	}
 }
 
+// ruleFirstChild checks the contract the tree printers rely on: FirstChild
+// returns nil or one of the receiver's own children (a lookup in tn.Children).
+// When it holds the printers are explored with FirstChild as that summary.
+func ruleFirstChild(c *core.Ctx, rule string) bool {
+	fn := c.P.LookupMethod(core.LibPath, "TreeNode", "FirstChild")
+	if fn == nil {
+		return false
+	}
+	x := newExec(c)
+	x.Hooks.Call = func(x *absint.Exec, s *absint.State, site ssa.CallInstruction, callee *ssa.Function, fnv absint.Value, args []absint.Value) (absint.Value, bool) {
+		if isMethod(callee, core.LibPath, "TreeNode", "Keys") {
+			return absint.Sym{Name: "keys"}, true
+		}
+		return nil, false
+	}
+	terms := x.Run(x.NewState(fn, nil, nil))
+	if len(x.Problems) > 0 || x.Exhausted {
+		return false
+	}
+	recv := fn.Params[0].Name()
+	for _, tm := range terms {
+		if tm.Kind != "return" || len(tm.Ret) != 1 {
+			return false
+		}
+		if isNilConst(tm.Ret[0]) {
+			continue
+		}
+		t, ok := tm.Ret[0].(*absint.Term)
+		if !ok || t.Op != "lookup" || len(t.Args) != 2 || locOf(x, t.Args[0]) != "L:§"+recv+"·Children" {
+			c.Violate(rule, core.FuncName(fn), "first-child", c.P.Pos(tm.Pos), "FirstChild returns "+tm.Ret[0].Key()+", which is not one of the node's own children: the collapsed balance would print a foreign row", nil)
+			return false
+		}
+	}
+	c.Discharge(rule, core.FuncName(fn), "first-child", c.P.Pos(fn.Pos()), "returns nil or an element of the receiver's Children")
+	return true
+}
+
 // lookupDepth: how many map lookups below the printer's node the location is (1 = a child, 2 = a grandchild).
 func lookupDepth(x *absint.Exec, loc string) int {
 	d := strings.Count(loc, "lookup(")
@@ -457,11 +506,12 @@ func keysOf(m map[string]bool) []string {
 func init() {
 	register(&Property{
 		ID:    "C03",
-		Rules: []string{"C03-R1", "C03-R2", "C03-R3", "C03-R5", "C03-R6", "C03-R7"},
+		Rules: []string{"C03-R1", "C03-R2", "C03-R3", "C03-R5", "C03-R6", "C03-R7", "C03-R8", "C01-R4", "C01-R5", "C02-R5"},
 		Explain: "Decides the structure that makes the balance tree conserve quantities: C03-R1 every range over TreeNode.Children is collect-then-sort on the name (siblings sorted, no order-dependent accumulation); " +
 			"C03-R2 chain collapsing propagates the empty 'forks below' sentinel; C03-R3 the single-element reporter expands like every other site and feeds tree and grand total in the same branches (C07-R1 restricted to balance); " +
 			"C03-R5 every printing traversal prints exactly one row per child with the child's own Total and skips a subtree only for a leaf, a joined chain, or collapse-last on a single leaf grandchild; " +
-			"C03-R6 TreeNode.Add links a new name and accumulates into an existing one; C03-R7 a printed grand total is a scalar Process feeds together with the tree.",
+			"C03-R6 TreeNode.Add links a new name and accumulates into an existing one; C03-R8 AddDeep gives every segment of the split name a node with the element's value, whatever the value or the segment; C03-R7 a printed grand total is a scalar Process feeds together with the tree; " +
+			"C01-R4/R5 and C02-R5 (shared) the resolved lists and the per-day food lists the balance sums over are merged by name, one slot per name, nothing dropped.",
 		NotDecided: "conservation itself (parent = own + children is a fact about float sums over all trees), equality of leaf sets between display modes, the prefix-of-another-name case",
 		Run: func(c *core.Ctx) {
 			RuleMapRanges(c, "C03-R1", func(s mapRangeSite) bool {
@@ -472,7 +522,19 @@ func init() {
 			ruleExpansionSites(c, "C03-R3", func(fn *ssa.Function) bool { return inPkgs(fn, balancePkg) })
 			ruleTreePrinters(c, "C03-R5")
 			ruleTreeAdd(c, "C03-R6")
+			ruleAddDeep(c, "C03-R8")
 			ruleGrandTotal(c, "C03-R7")
+			// the single-element balance reads one amount per resolved element: the lists must be duplicate-free (C01's discipline),
+			// and a day's foods are merged by name before they reach any reporter
+			for _, r := range recursiveResolvers(c.P) {
+				analyseResolver(c, r, map[string]bool{"C01-R5": true})
+			}
+			if fn := c.P.LookupMethod(core.LibPath, "Elements", "SumMerge"); requireAnchor(c, "C01-R4", "Elements.SumMerge", fn != nil) {
+				ruleMergeByName(c, "C01-R4", fn, true)
+			}
+			if fn := c.P.LookupFunc(core.LibPath, "NewLogNodeFromElements"); requireAnchor(c, "C02-R5", "NewLogNodeFromElements", fn != nil) {
+				ruleMergeByName(c, "C02-R5", fn, false)
+			}
 		},
 	})
 }
@@ -480,4 +542,70 @@ func init() {
 func isSliceType(t types.Type) bool {
 	_, ok := t.Underlying().(*types.Slice)
 	return ok
+}
+
+// ruleAddDeep is C03-R8: AddDeep adds the element's value to a node for every
+// segment of the split name, whatever the value and whatever the segment.
+func ruleAddDeep(c *core.Ctx, rule string) {
+	fn := c.P.LookupMethod(core.LibPath, "TreeNode", "AddDeep")
+	if !requireAnchor(c, rule, "TreeNode.AddDeep", fn != nil) {
+		return
+	}
+	fname := core.FuncName(fn)
+	x := newExec(c)
+	var bad []string
+	iterations := 0
+	x.Hooks.Call = func(x *absint.Exec, s *absint.State, site ssa.CallInstruction, callee *ssa.Function, fnv absint.Value, args []absint.Value) (absint.Value, bool) {
+		switch {
+		case callee != nil && callee.String() == "strings.Split":
+			s.SetData("split", "1")
+			return absint.Sym{Name: "segments"}, true
+		case isMethod(callee, core.LibPath, "TreeNode", "Add") && len(args) == 2:
+			s.SetData("added", "1")
+			// the node added carries the element's own value
+			if p, ok := args[1].(absint.Ptr); ok {
+				tv := x.Load(s, absint.Ptr{Loc: p.Loc + "·Total", Fresh: true}, nil)
+				if !strings.Contains(tv.Key(), `"Value"`) && !strings.HasSuffix(locOf(x, tv), "·Value") {
+					bad = append(bad, "a segment's node is created with total "+tv.Key()+", not the element's value")
+				}
+			}
+			return x.Fresh(s, "child"), true
+		}
+		return nil, false
+	}
+	x.Hooks.Decide = func(x *absint.Exec, s *absint.State, atom string, outs []string) {
+		// a decision that depends on the value or on a segment's text changes which nodes receive the amount
+		if strings.Contains(atom, `"Value"`) || strings.Contains(atom, "§segments[") || strings.Contains(atom, "§@") && strings.Contains(atom, `c:""`) {
+			bad = append(bad, "whether a node is updated depends on "+atom+": some path segments, or zero amounts, are skipped and the path (with everything below it) is missing from every display mode")
+		}
+	}
+	x.Hooks.BackEdge = func(x *absint.Exec, s *absint.State, f *absint.Frame, h *ssa.BasicBlock) {
+		if f.Fn != fn {
+			return
+		}
+		iterations++
+		if s.Data["added"] != "1" {
+			bad = append(bad, "an iteration over the path segments ends without adding a node")
+		}
+		s.SetData("added", "")
+	}
+	terms := x.Run(x.NewState(fn, nil, nil))
+	if !account(c, x, rule, fn) {
+		return
+	}
+	for _, tm := range terms {
+		if tm.State.Data["split"] != "1" {
+			bad = append(bad, "a path returns before the name is split into segments ("+x.Valuation(tm.State)+")")
+		}
+	}
+	if iterations == 0 {
+		bad = append(bad, "no loop over the path segments was explored")
+	}
+	bad = uniq(bad)
+	if len(bad) == 0 {
+		c.Discharge(rule, fname, "every-segment", c.P.Pos(fn.Pos()), "every segment of the split name gets a node carrying the element's value, unconditionally")
+	}
+	for _, m := range bad {
+		c.Violate(rule, fname, "every-segment", c.P.Pos(fn.Pos()), m, nil)
+	}
 }
